@@ -15,8 +15,44 @@ import (
 	"runtime/pprof"
 	"strconv"
 	"strings"
+	"sync"
+	"time"
 	"unsafe"
 )
+
+// StallSeconds is the wall-clock watchdog of a controlled run (see Run).
+var StallSeconds = 45
+
+var watchdogOnce sync.Once
+
+func startWatchdog() { watchdogOnce.Do(func() { go watchdog() }) }
+
+// watchdog looks at the run in progress once a second (racy reads of two words; it only needs to see change).
+func watchdog() {
+	var cur *Sched
+	last, still := -1, 0
+	for range time.Tick(time.Second) {
+		s := active
+		if s == nil || s != cur || s.total != last {
+			cur, still = s, 0
+			if s != nil {
+				last = s.total
+			}
+			continue
+		}
+		if still++; still >= StallSeconds {
+			t := s.running
+			id, op := -1, -1
+			if t != nil {
+				id, op = t.ID, t.OpIndex
+			}
+			s.fail = &Failure{Kind: "no-progress", Detail: fmt.Sprintf("thread %d (op %d) has been executing for %d s of wall-clock time without reaching any scheduling point (after %d points in total): a loop without synchronisation that does not terminate", id, op, StallSeconds, s.total)}
+			s.poisoned = true
+			close(s.stallCh)
+			cur, still = nil, 0
+		}
+	}
+}
 
 // ForeignCalls counts shim calls made by goroutines the scheduler does not own while a run was active
 // (they pass through to the real primitives).
@@ -120,6 +156,7 @@ type Sched struct {
 	fail      *Failure
 	poisoned  bool
 	doneCh    chan struct{}
+	stallCh   chan struct{}
 	switches  int
 	allSw     int
 	blocks    int
@@ -176,7 +213,7 @@ func Run(decider Decider, budget int, fns ...func()) *Result {
 	if active != nil {
 		panic("vs.Run: nested run")
 	}
-	s := &Sched{decider: decider, budget: budget, doneCh: make(chan struct{})}
+	s := &Sched{decider: decider, budget: budget, doneCh: make(chan struct{}), stallCh: make(chan struct{})}
 	for i, fn := range fns {
 		t := &Thread{ID: i, wake: make(chan struct{}, 1), fn: fn, OpIndex: -1, labelled: make(chan struct{})}
 		s.Threads = append(s.Threads, t)
@@ -195,7 +232,15 @@ func Run(decider Decider, budget int, fns ...func()) *Result {
 		s.running = first
 		first.wake <- struct{}{}
 	}
-	<-s.doneCh
+	// Wall-clock watchdog (one process-wide goroutine, see watchdog): a thread that executes for StallSeconds
+	// without reaching a single scheduling point is in a loop that contains no synchronisation at all - the step
+	// budget cannot see it. The run is abandoned (the goroutine cannot be stopped; it is poisoned and unwinds at
+	// its next scheduling point, if it ever reaches one).
+	startWatchdog()
+	select {
+	case <-s.doneCh:
+	case <-s.stallCh:
+	}
 	active = nil
 	r := &Result{Fail: s.fail, Total: s.total, Switches: s.switches, AllSwitches: s.allSw,
 		Blocks: s.blocks, CondWaits: s.condWaits, Broadcasts: s.bcasts, Yields: s.yields}
